@@ -119,11 +119,13 @@ Definition lower (st : pstate) (o : Q) (i : nat) : bool := Qltb (obj_at st i) o.
 
 Definition countb (f : nat -> bool) (l : list nat) : nat := length (filter f l).
 
-(** stored indices strictly inside / exactly on the k-th distance *)
-Definition idx_below (k : nat) (dists : list Q) : list nat :=
-  filter (fun i => Qltb (nth i dists 0) (kth k dists)) (seq 0 (length dists)).
-Definition idx_tie (k : nat) (dists : list Q) : list nat :=
-  filter (fun i => Qeq_bool (nth i dists 0) (kth k dists)) (seq 0 (length dists)).
+(** stored indices strictly inside / exactly on the k-th distance [d] *)
+Definition idx_below_at (d : Q) (dists : list Q) : list nat :=
+  filter (fun i => Qltb (nth i dists 0) d) (seq 0 (length dists)).
+Definition idx_tie_at (d : Q) (dists : list Q) : list nat :=
+  filter (fun i => Qeq_bool (nth i dists 0) d) (seq 0 (length dists)).
+Definition idx_below (k : nat) (dists : list Q) : list nat := idx_below_at (kth k dists) dists.
+Definition idx_tie (k : nat) (dists : list Q) : list nat := idx_tie_at (kth k dists) dists.
 
 (** interval of "number of the k nearest neighbours with a strictly lower objective" over all valid
     selections of k nearest neighbours: everything strictly below the k-th distance is selected,
@@ -142,9 +144,9 @@ Definition lc_of (c : pcfg) (st : pstate) (x : pcand) : nat * nat :=
 
 (** ** add *)
 (** index_of's answer must be a stored index at minimum distance *)
+Definition all_ge (d0 : Q) (dists : list Q) : bool := forallb (fun d => Qle_bool d0 d) dists.
 Definition near_ok (n : nat) (x : pcand) : bool :=
-  Nat.ltb (pc_near x) n &&
-  forallb (fun d => Qle_bool (nth (pc_near x) (pc_dists x) 0) d) (pc_dists x).
+  Nat.ltb (pc_near x) n && all_ge (nth (pc_near x) (pc_dists x) 0) (pc_dists x).
 
 (** add_indices / add_data: novel rows get len, len+1, ... in batch order; with local competition the
     non-novel rows target their nearest entry, without it they are dropped *)
